@@ -275,6 +275,11 @@ func (f *Footer) doLoadSegments(options *StoreOptions, fref *FileRef,
 	mrefs []*mmapRef) (mrefsSoFar []*mmapRef, err error) {
 	// Recursively load the childFooters first.
 	for _, childFooter := range f.ChildFooters {
+		if childFooter.refs <= 0 {
+			// A child footer that was read back from disk: its parent
+			// footer holds the one ref-count on it.
+			childFooter.refs = 1
+		}
 		mrefs, err = childFooter.doLoadSegments(options, fref, mrefs)
 		if err != nil {
 			return mrefs, err
